@@ -393,5 +393,29 @@ return y + g¶_r
 			Entries: []*Entry{{Name: "§_F0", Params: []Kind{KInt}, Ret: KInt, Tuples: ints(0, 1, 2, 5)}},
 			NParams: map[string]int{"§_F0": 1, "¶_div": 2, "¶_rec": 0},
 		},
+		{
+			Kind: "corpus", Key: "return-operands-reversed",
+			Note: "the operands of `return a(), b()` are evaluated right to left (codegen.go:913-916 walks n.Results backwards); Go evaluates the calls left to right",
+			Plain: `var g¶_n = 1
+func ¶_a() int {
+g¶_n = g¶_n * 2
+return g¶_n
+}
+func ¶_b() int {
+g¶_n = g¶_n + 3
+return g¶_n
+}
+func ¶_two() (int, int) {
+return ¶_a(), ¶_b()
+}
+func §_F0(x int) int {
+p, q := ¶_two()
+return p*100 + q + x
+}
+`,
+			ResetP:  "g¶_n = 1\n",
+			Entries: []*Entry{{Name: "§_F0", Params: []Kind{KInt}, Ret: KInt, Tuples: ints(0, 1)}},
+			NParams: map[string]int{"§_F0": 1, "¶_a": 0, "¶_b": 0, "¶_two": 0},
+		},
 	}
 }
